@@ -244,3 +244,37 @@ Proof.
   split; [|split; [vm_compute; reflexivity|split; [split; vm_compute; reflexivity|split; vm_compute; reflexivity]]].
   repeat constructor; try (vm_compute; (reflexivity || discriminate || (left; reflexivity))).
 Qed.
+
+(* the same for the documents with typed properties and self-closing markers *)
+Require YS.Proofs.MarkupPropsCharacterProofs.
+Module PC := YS.Proofs.MarkupPropsCharacterProofs.
+Theorem C13_document_with_properties_and_character_prefix : forall its n t,
+  Forall P.item_ok its -> P.selfs_ok its [] ->
+  P.text its = n ++ 58%N :: t -> forallb CP.no_colon n = true ->
+  P.no_edge_space (P.text its) ->
+  (forall encl e, P.enclosed its [] [] = Some encl -> In e encl -> str_eqb (P.ename e) (STR "character") = false) ->
+  match P.enclosed its [] [] with
+  | Some encl =>
+      exists attrs, parse_markup (P.render its) =
+          Some (P.text its, attrs ++ [{| aname := STR "character"; apos := 0;
+                                         alen := Z.of_nat (S (length n) + count_re_space t); asrc := 0;
+                                         aprops := [(STR "name", MStr (trim_space n))] |}]) /\
+        length attrs = length encl /\
+        (forall e, In e encl -> exists a, In a attrs /\ aname a = P.ename e /\ aprops a = props_map (P.eprops e) /\
+                                          text_for_attribute (P.text its) a = Some (snd e)) /\
+        (forall a, In a attrs -> exists e, In e encl /\ aname a = P.ename e /\ aprops a = props_map (P.eprops e) /\
+                                           text_for_attribute (P.text its) a = Some (snd e))
+  | None => parse_markup (P.render its) = None
+  end.
+Proof. exact PC.document_with_character_prefix. Qed.
+Print Assumptions C13_document_with_properties_and_character_prefix.
+
+Definition ex_pcdoc : list P.item :=
+  [P.IText (STR "Zo:"); P.open_plain (STR "b") [(STR "n", P.PVInt (STR "12"))]; P.IText (STR " y");
+   P.self_marker (STR "pause") [(STR "ms", P.PVInt (STR "250"))]; P.IText (STR "z"); P.IClose (STR "b")].
+Example C13_properties_character_example :
+  P.selfs_ok ex_pcdoc [] /\ P.text ex_pcdoc = STR "Zo" ++ 58%N :: STR " yz" /\
+  option_map (fun r => (fst r, map (fun a => (aname a, apos a, alen a, aprops a)) (snd r))) (parse_markup (P.render ex_pcdoc))
+  = Some (STR "Zo: yz", [(STR "b", 3, 3, [(STR "n", MInt 12)]); (STR "pause", 5, 0, [(STR "ms", MInt 250)]);
+                         (STR "character", 0, 4, [(STR "name", MStr (STR "Zo"))])]%Z).
+Proof. split; [vm_compute; auto|split; vm_compute; reflexivity]. Qed.
